@@ -9,36 +9,32 @@ TB = ("Trusted base: Lean 4.33 kernel (axioms propext, Classical.choice, Quot.so
 
 # id -> (category, technique, text, note)
 CHECKS = {
- "C01": ("proof", "Lean 4 theorems (*_isPartition, cg_result, multifit_bins_le) + model/code correspondence + verified checker",
-         "Validity theorems for greedy, round-robin, multifit, KK, complete greedy (every switch/objective/cut), CBLDM, DP replay; SNP conditional on CKK validity (partial); "
-         "RNP/ILP/CKK covered by the verified checker checkPartition on every implementation output. Strict correspondence of every model with the code on every run.", TB),
- "C02": ("proof", "Lean 4 theorem dp_optimal (verified oracle) + correspondence + certified evaluation of every exact algorithm against the oracle",
-         "DP optimality proved for every objective (dp_optimal, optValue_spec); the DP model is the verified oracle against which CG (16 switch combinations), CKK, SNP, RNP outputs are certified. "
-         "Optimality theorems for CG/CKK/SNP/RNP are stated-only (PARTIAL).", TB),
- "C03": ("proof", "Lean 4 theorems ff/ffd/bf/bfd_isPacking + correspondence + verified checker for bin-completion",
-         "Feasibility and completeness proved for the four fit heuristics in every arrival order; bin-completion modelled faithfully (strict correspondence on list input) and certified by the verified checkPacking (PARTIAL).", TB),
- "C04": ("proof", "Lean 4 theorems packing_lower_bound, optBins_spec (verified oracle) + correspondence + certified evaluation",
-         "PARTIAL: the lower bound and the minimum-bin oracle are proved; bin-completion's search is modelled faithfully and every implementation answer is compared with the verified optimum; optimality of the search itself is stated-only.", TB),
+ "C01": ("proof", "Lean 4 theorems (*_isPartition for every partitioner incl. CKK/SNP/RNP, cg_result, cg_some_of_no_limit, multifit_bins_le, termination theorems) + model/code correspondence + verified checker",
+         "Full: every partitioner's model is proved to return a partition of the input into k bins (multifit: at most k), complete greedy never returns None without a limit, the searches terminate with explicit fuel; RNP for k <= 5 (after fix F10; k >= 6 is known finding KF1); ILP read-back proved, solver trusted. Strict correspondence of every model with the code on every run; every implementation output also judged by the verified checker checkPartition.", TB),
+ "C02": ("proof", "Lean 4 optimality theorems (dp_optimal, cg_optimal for all 16 switch combinations x 5 objectives, ckk_optimal, snp_optimal', rnpF_optimal, ILP unit_weights_wlog) + correspondence + certified evaluation against the verified DP oracle",
+         "Full for DP, complete greedy, CKK (both managers), SNP and RNP (k <= 5, after F10 - the defect was found by the proof attempt); ILP: the formulation's optimum is proved to be the true optimum, the MIP solver is trusted and certified per run. Every exact algorithm's output is additionally compared with the verified oracle on every run.", TB),
+ "C03": ("proof", "Lean 4 theorems ff/ffd/bf/bfd_isPacking, bc_isPacking + correspondence + verified checker",
+         "Full: feasibility, completeness and non-empty bins proved for the four fit heuristics in every arrival order and for bin completion (list input; zero-valued items dropped). Strict correspondence incl. bin sizes up to 2^40 and dyadic fractions; the helpers of bin completion's search are compared directly.", TB),
+ "C04": ("proof", "Lean 4 theorem bc_optimal (bin completion = optBins) + packing_lower_bound, bc_le_bfd, isDom_sound + verified oracle optBins + correspondence incl. direct calls of the search helpers",
+         "Full for list input: the model of bin completion's search is proved to return an optimal packing (Martello-Toth dominance formalised; explicit fuel bound), never more bins than BFD; every implementation answer is compared with the verified minimum for Partition, Sums and BinCount.", TB),
  "C05": ("proof", "Lean 4 theorems coverDecreasing/twoThirds/threeQuarters_isCover + correspondence + verified checker",
          "Full: each covering algorithm's model is proved to return a valid cover wasting less than one bin, for all inputs; strict correspondence with the code.", TB),
  "C06": ("proof", "Lean 4 consistency theorems (sums = map binSum lists; output projections) + correspondence across all output types",
          "Every output type of prtpy.out is compared with the projection of the model's single Bins result, and the statement itself is evaluated on the implementation for every sums-only output type.", TB),
  "C07": ("proof", "Lean 4 naturality / validity theorems + correspondence across the five input formats",
          "Each case is presented as list, numpy array, dict (string and integer names) and names+valueof; named results are judged by the verified checkers; known finding KF4 (bin_completion computes on names).", TB),
- "C08": ("proof", "Lean 4 theorems greedy_gap, kk_gap, roundrobin_gap/monotone/cards, Graham 2-1/k (partial) + verified DP oracle for the sharp ratios",
-         "PARTIAL: the gap bounds and round-robin structure are proved in full; for the ratios the weaker constants 2-1/k, additive min bound and 2*OPT are proved; the sharp constants are only searched for counter-examples with the verified oracle.", TB),
- "C09": ("proof", "Lean 4 theorems ff/bf(±decreasing)_anyfit, anyfit_lt_two_opt (partial) + verified optBins oracle",
-         "Any-fit invariant proved in full for all four heuristics in every arrival order; bin-count bound proved with factor 2 (PARTIAL); sharp 1.7 and 11/9 constants searched with the verified oracle.", TB),
- "C10": ("proof", "Lean 4 theorems cover_le_opt, *_half_coverable + verified optCover oracle",
-         "ALG <= OPT and OPT <= 2 ALG + 1 proved for all three (this is the full bound for the decreasing heuristic; PARTIAL for 2/3 and 3/4); sharp constants searched with the verified oracle.", TB),
- "C13": ("proof", "Lean 4 theorems lb_admissible, lb_sorted_flag, genTree_eq, lexPerms_*, allCombSums_* + correspondence on direct calls",
-         "Admissibility of the three lower bounds and independence of the sorted flag proved for all sum vectors and remaining totals; the in/ex tree is proved equal to the filter of all sub-lists; "
-         "all_combinations of the sums manager proved sound, complete and duplicate-free (contents manager: correspondence and direct evaluation, PARTIAL).", TB),
+ "C08": ("proof", "Lean 4 theorems greedy_four_thirds (Graham), kk_four_thirds, greedy/kk/roundrobin_gap, roundrobin_monotone/cards, multifit_ratio_four_thirds, greedy_maxmin_partial_* + verified DP oracle for the remaining sharp ratios",
+         "Gap bounds and round-robin structure full; 4/3 - 1/(3k) proved in full for LPT and for Karmarkar-Karp; PARTIAL: LPT's max-min ratio proved as 2k/(3k-1) (exact ratio under a window hypothesis), multifit proved <= (4/3 + 2^-it) OPT instead of 1.22 + 2^-it; the sharp constants are searched for counter-examples with the verified oracle on every run.", TB),
+ "C09": ("proof", "Lean 4 theorems ff/bf(±decreasing)_anyfit, ff/bf_seventeen_tenths_strong (<= 1.7 OPT + 1), ffd/bfd_three_halves, ffd/bfd_partial_four_thirds + verified optBins oracle",
+         "Any-fit invariant proved in full for all four heuristics in every arrival order; PARTIAL bounds: FF, BF <= floor(1.7 OPT) + 1 (weighting-function proof), FFD, BFD <= 3/2 OPT and <= (4 OPT + 1)/3, 11/9 outside one range of the last item's size; the absolute 1.7 and the 11/9 bounds are searched with the verified oracle.", TB),
+ "C10": ("proof", "Lean 4 theorems cover_le_opt, coverDecreasing_half, twoThirds_two_thirds, threeQuarters_half + verified optCover oracle",
+         "ALG <= OPT proved for all three; the decreasing heuristic's (OPT-1)/2 and the two-thirds algorithm's 2/3 (OPT-1) proved in full; PARTIAL for three-quarters (OPT <= 2 ALG + 1 proved; 3/4 OPT - 4 searched with the verified oracle, proof in progress).", TB),
+ "C13": ("proof", "Lean 4 theorems lb_admissible, lb_sorted_flag, genTree_eq, lexPerms_*, allCombSums_*, allCombContents_* + correspondence on direct calls",
+         "Full: admissibility of the three lower bounds and independence of the sorted flag; the in/ex tree equals the filter of all sub-lists; all_combinations of both managers sound, complete and duplicate-free (distinctness on the manager's canonical form, DESIGN section 10).", TB),
  "C20": ("proof", "Lean 4 theorems value_eq_doc, value_perm, value_sorted_fast, weighted_def + correspondence on direct calls",
          "Full: each objective's value equals its documented function for every sum vector, is order-independent, and the sorted fast path agrees whenever the sums are sorted; strict correspondence of value_to_minimize on lists, tuples and arrays.", TB),
- "C11": ("proof", "Lean 4 theorems cg_cut_safe, cg_cut_monotone, cg_cut_eventually, cg_optimal, cbldm_isPartition/card/optimal, ckkGen_valid/strict + correspondence at EVERY cut under a counting clock",
-         "Safety of interruption and monotonicity proved for every configuration and every clock reading; optimality without limit proved (cg_optimal, cbldm_optimal); CKK generator validity and strict improvement proved "
-         "(its last yield being optimal is certified against the verified oracle; theorem in progress). Every cut of every run of the scope is executed on the real code with a deterministic clock and compared strictly with the model. Known finding KF5 (heuristic 3).", TB),
+ "C11": ("proof", "Lean 4 theorems cg_cut_safe/monotone/eventually, cg_first_solution_lpt/_h3, cg_optimal, cbldm_cut_safe/monotone/eventually, cbldm_optimal, ckkGen_valid/strict/last_optimal + correspondence at EVERY cut under a counting clock",
+         "Full: safety of interruption, monotonicity in the limit, first solution = LPT (heuristic 3 off; with it the same largest sum: known finding KF5) and optimality without limit are proved for every configuration; CKK generator validity, strict improvement and optimal last yield proved. Every cut of every run of the scope is executed on the real code (list and named input) with a deterministic clock and compared strictly with the model.", TB),
  "C14": ("proof", "Lean 4 theorems *_eq_spec, greedy_is_lpt_run, lpt_runs_same_sums, bestfit_runs_same_sums (models = textbook specifications) + correspondence + independent transcription",
          "Full: round-robin, first-fit (+decreasing), the three covers are proved equal to direct textbook specifications (bins equal); greedy and best-fit are proved to be LPT / best-fit runs and all such runs have the same multiset of sums.", TB),
  "C15": ("other", "definitional purity of the Lean model + bins-manager frame theorems (unwritten_unchanged, args_unmodified) + refinement testing over call histories",
@@ -50,13 +46,12 @@ CHECKS = {
  "C17": ("proof", "Lean 4 theorems about the ILP formulation (rows_iff_feasible, objective_is_documented, decode_copies, result_order, unit_weights_wlog, solver_answer_spec) + capture of the model handed to the solver + certification against the brute-force optimum",
          "The formulation handed to the MIP solver is modelled as data and proved to say exactly what the property states (copies, ascending weighted sums, caller constraints, documented objective); the read-back is proved to place each item copies[i] times "
          "in the right bins and order. On every run the constraint system actually given to CBC is captured (wrapping mip.Model.optimize) and compared row by row with the Lean formulation, and CBC's answer is certified against the Lean brute-force optimum. The solver itself is trusted.", TB),
- "C18": ("proof", "Lean 4 theorems *_perm_sums, *_scale, isOptimal_perm/scale/zeros, optValue_* + metamorphic evaluation + agreement of exact solvers",
-         "Permutation invariance and scaling proved for every heuristic (multifit in exact rationals); the specification optimum is proved invariant under permutation and zero items and linear under scaling, hence so is every algorithm with an optimality theorem "
-         "(DP, complete greedy, CBLDM); CKK/SNP/RNP/ILP by certified evaluation (PARTIAL). Exact solvers are compared with each other on 11-16 items.", TB),
+ "C18": ("proof", "Lean 4 theorems *_perm_sums, *_scale, isOptimal_perm/scale/zeros, cg/dp/cbldm_value_perm/scale/zeros, cg_value_config_independent + optimality theorems + metamorphic evaluation + agreement of exact solvers",
+         "Full: permutation invariance and scaling proved for every heuristic (multifit in exact rationals); the specification optimum is invariant under permutation and zero items and linear under scaling, hence so is every algorithm with an optimality theorem (DP, complete greedy, CKK, SNP, RNP, CBLDM); ILP by certification. Exact solvers are compared with each other on 11-16 items.", TB),
  "C19": ("proof", "Lean 4 theorems ff/bf(±decreasing)_error_iff, bc_error_iff, decision-table model of cbldm's validation + correspondence on the malformed stream",
          "Full for the packers: the model returns ValueError iff some item exceeds the bin size, whatever its position or multiplicity (format independence by naturality); cbldm's validation and the sums-only manager's refusal are modelled as decision logic and compared on every single-invalid-argument combination.", TB),
- "C12": ("proof", "Lean 4 theorems cbldm_isPartition, cbldm_card, optBalanced_spec (verified oracle) + correspondence",
-         "Validity and the cardinality bound proved for every input, bound and interruption point; optimality certified against the verified balanced oracle (optimality theorem stated-only: PARTIAL).", TB),
+ "C12": ("proof", "Lean 4 theorems cbldm_isPartition, cbldm_card, cbldm_some, cbldm_optimal + verified balanced oracle + correspondence",
+         "Full: validity, the cardinality bound (also when interrupted), existence of a result and optimality under the bound are proved for every input and bound; certified against the verified oracle optBalanced on every run.", TB),
 }
 
 NOT_YET = {k: 'check under construction in this session (suite not yet registered); see DESIGN.md section 8' for k in []}
